@@ -70,6 +70,7 @@ def register_in_group(
         ep_name = to_ep_name(pginfo.name, pginfo.version)
         pg_ref = pgroup.PluginRef(name=pginfo.name, version=pginfo.version)
 
+        is_new = ep_name not in pgroup._ENTRY_POINTS
         pgroup._ENTRY_POINTS[ep_name] = None
         pgroup._LOADED_PLUGINS[pg_ref] = plugin
         if pg_ref.name not in pgroup._VERSIONS:
@@ -77,7 +78,16 @@ def register_in_group(
         pgroup._VERSIONS[pg_ref.name].append(pg_ref)
         pgroup._VERSIONS[pg_ref.name].sort()
 
-        pgroup._load_plugin(ep_name, plugin)
+        try:
+            pgroup._load_plugin(ep_name, plugin)
+        except Exception:
+            if is_new:  # failed the checks -> undo the registration
+                del pgroup._ENTRY_POINTS[ep_name]
+                del pgroup._LOADED_PLUGINS[pg_ref]
+                pgroup._VERSIONS[pg_ref.name].remove(pg_ref)
+                if not pgroup._VERSIONS[pg_ref.name]:
+                    del pgroup._VERSIONS[pg_ref.name]
+            raise
         if not violently:
             eprint(
                 f"Notebook: Plugin '{pginfo.name}' registered in '{pgroup.name}' group!"
